@@ -47,6 +47,7 @@ package libinjection
 //@   modifies nothing
 //@   rank     1
 //@   ensures  [C02 C15 C17] !result
+//@   cost     <= 0
 
 // ---- <! .. > and <? .. > : ends at the first '>'
 //@ spec postBogus(h *h5State, p int) bool = wfH0(h) && tokOK(h) && tokOff(h) == p && h.tokenType == html5TypeTagComment &&
@@ -168,6 +169,7 @@ package libinjection
 //@   ensures  [C17] @cdata   cdataOpenAt(h, old(h.pos)) ==> postCData(h, old(h.pos) + 7)
 //@   ensures  [C17] @comment old(h.pos) + 2 <= h.len && h.s[old(h.pos)] == '-' && h.s[old(h.pos)+1] == '-' ==> postComment(h, old(h.pos) + 2)
 //@   ensures  [C17] @bogus   (old(h.pos) >= h.len || (h.s[old(h.pos)] < 128 && !(h.s[old(h.pos)] in {'d', 'D', '[', '-'}))) ==> postBogus(h, old(h.pos))
+//@   cost     <= 3 * (cpos(h) - old(h.pos)) + 40
 
 //@ func (*h5State).stateSelfClosingStartTag
 //@   requires wfH(h) && h.pos >= 1 && midState(h)
@@ -180,6 +182,7 @@ package libinjection
 //@   ensures  [C17] @selfclose old(h.pos) < h.len && h.s[old(h.pos)] == '>' ==> result && h.tokenType == html5TypeTagNameSelfClose &&
 //@                 tokOff(h) == old(h.pos) - 1 && h.tokenLen == 2 && h.pos == old(h.pos) + 1 && h.state == h.stateData
 //@   ensures  [C15] @safe noLtEq(h) && result ==> safeState(h) && safeTok(h)
+//@   cost     <= 3 * (cpos(h) - old(h.pos)) + ((old(h.pos) < h.len && h.s[old(h.pos)] != '>') ? 44 : 6)
 
 //@ func (*h5State).stateTagNameClose
 //@   requires wfM(h) && h.pos < h.len
@@ -190,6 +193,7 @@ package libinjection
 //@   ensures  [C17] @token h.tokenType == html5TypeTagNameClose && tokOK(h) && tokOff(h) == old(h.pos) && h.tokenLen == 1 && h.pos == old(h.pos) + 1 &&
 //@                 h.state == (h.pos < h.len ? h.stateData : h.stateEOF)
 //@   ensures  [C15] @safe safeState(h) && safeTok(h)
+//@   cost     <= 2
 
 // ---- tag name: ends at the first white / '/' / '>' (NULs are part of the name)
 //@ spec tagNameEnd(c int) bool = isWS(c) || c == '/' || c == '>'
@@ -218,6 +222,7 @@ package libinjection
 //@   ensures  wfH(h)
 //@   ensures  !result ==> h.pos == old(h.pos) && h.state == old(h.state) && old(h.pos) >= h.len
 //@   ensures  [C17] @stream result ==> streamOK(h, old(h.pos)) && potQ(h) >= old(h.pos) + 1
+//@   cost     <= 3 * (cpos(h) - old(h.pos)) + 24
 
 //@ func (*h5State).stateTagOpen
 //@   requires wfH(h) && midState(h)
@@ -227,6 +232,7 @@ package libinjection
 //@   ensures  wfH(h)
 //@   ensures  !result ==> h.pos >= h.len
 //@   ensures  [C17] @stream result ==> streamOK(h, old(h.pos) - 1) && potQ(h) >= old(h.pos) + 1
+//@   cost     <= 3 * (cpos(h) - old(h.pos)) + (old(h.pos) == 0 ? 100 : 60)
 
 // ---- data: text up to the first '<'
 //@ func (*h5State).stateData
@@ -242,6 +248,7 @@ package libinjection
 //@                  (h.state == h.stateTagOpen && h.s[old(h.pos) + h.tokenLen] == '<' && h.pos == old(h.pos) + h.tokenLen + 1))
 //@   ensures  (old(h.pos) >= h.len ==> !result) && (!result ==> h.pos >= h.len)
 //@   ensures  [C15] @safe noLtEq(h) ==> h.state == h.stateEOF && (result ==> h.tokenType == html5TypeDataText)
+//@   cost     <= 3 * (cpos(h) - old(h.pos)) + ((old(h.pos) < h.len && h.s[old(h.pos)] == '<') ? 80 : 10)
 
 //@ func (*h5State).stateAttributeValueNoQuote
 //@   requires wfM(h)
@@ -267,6 +274,7 @@ package libinjection
 //@   ensures  wfH(h) && h.isClose == old(h.isClose)
 //@   ensures  !result ==> h.pos == h.len && h.state == h.stateEOF
 //@   ensures  [C17] @stream result ==> streamOK(h, old(h.pos)) && potQ(h) >= old(h.pos) + 1 && h.tokenType == html5TypeAttrValue
+//@   cost     <= 3 * (cpos(h) - old(h.pos)) + 12
 
 //@ func (*h5State).stateAfterAttributeName
 //@   requires wfH(h) && midState(h)
@@ -277,6 +285,7 @@ package libinjection
 //@   ensures  !result ==> h.pos == h.len
 //@   ensures  [C17] @stream result ==> streamOK(h, old(h.pos)) && potQ(h) >= old(h.pos) + 2
 //@   ensures  [C15] @safe noLtEq(h) && result ==> safeState(h) && safeTok(h)
+//@   cost     <= 3 * (cpos(h) - old(h.pos)) + 56
 
 // ---- attribute name: ends at the first white / '/' / '=' / '>' after its first byte
 //@ spec attrNameEnd(c int) bool = isWS(c) || c == '/' || c == '=' || c == '>'
@@ -310,6 +319,8 @@ package libinjection
 //@   loop 1 invariant old(h.pos) <= h.pos && h.pos <= h.len && h.state == old(h.state) && h.isClose == old(h.isClose)
 //@   loop 1 decreases h.len - h.pos
 //@   ensures  [C15] @safe noLtEq(h) && result ==> safeState(h) && safeTok(h)
+//@   cost     <= 3 * (cpos(h) - old(h.pos)) + 30
+//@   loop 1 invariant [C09] $cost <= 3 * (h.pos - old(h.pos))
 
 //@ func (*h5State).stateAfterAttributeValueQuotedState
 //@   requires wfH(h) && midState(h)
@@ -320,6 +331,7 @@ package libinjection
 //@   ensures  !result ==> h.pos == h.len
 //@   ensures  [C17] @stream result ==> streamOK(h, old(h.pos)) && potQ(h) >= old(h.pos) + 2
 //@   ensures  [C15] @safe noLtEq(h) && result ==> safeState(h) && safeTok(h)
+//@   cost     <= 3 * (cpos(h) - old(h.pos)) + 56
 
 // ---- quoted value: from just after the opening quote (or offset 0 in a quote context)
 // to the first matching quote
@@ -329,7 +341,7 @@ package libinjection
 //@   ensures  @mono old(h.pos) <= h.pos
 //@   rank     2
 //@   ensures  result && wfH(h) && h.isClose == old(h.isClose) && h.tokenType == html5TypeAttrValue
-//@   ensures  [C17] @first_terminator let b = old(h.pos) + (old(h.pos) > 0 ? 1 : 0) in
+//@   ensures  [C17 C13] @first_terminator let b = old(h.pos) + (old(h.pos) > 0 ? 1 : 0) in
 //@                 tokOK(h) && tokOff(h) == b && (forall k in [b, b + h.tokenLen): h.s[k] != ch) &&
 //@                 (h.state == h.stateEOF || h.state == h.stateAfterAttributeValueQuotedState) &&
 //@                 (h.state == h.stateEOF ==> b + h.tokenLen == h.len) &&
@@ -345,6 +357,7 @@ package libinjection
 //@   ensures  result && wfH(h) && h.isClose == old(h.isClose) && h.tokenType == html5TypeAttrValue
 //@   ensures  [C17] @stream streamOK(h, old(h.pos)) && potQ(h) >= old(h.pos) + 1
 //@   ensures  [C15] @safe h.state == h.stateEOF || h.state == h.stateAfterAttributeValueQuotedState
+//@   cost     <= cpos(h) - old(h.pos) + 5
 //@ func (*h5State).stateAttributeValueDoubleQuote
 //@   requires wfM(h) && (h.pos == 0 || h.pos < h.len)
 //@   modifies h.pos, h.state, h.tokenStart, h.tokenLen, h.tokenType
@@ -353,6 +366,7 @@ package libinjection
 //@   ensures  result && wfH(h) && h.isClose == old(h.isClose) && h.tokenType == html5TypeAttrValue
 //@   ensures  [C17] @stream streamOK(h, old(h.pos)) && potQ(h) >= old(h.pos) + 1
 //@   ensures  [C15] @safe h.state == h.stateEOF || h.state == h.stateAfterAttributeValueQuotedState
+//@   cost     <= cpos(h) - old(h.pos) + 5
 //@ func (*h5State).stateAttributeValueBackQuote
 //@   requires wfM(h) && (h.pos == 0 || h.pos < h.len)
 //@   modifies h.pos, h.state, h.tokenStart, h.tokenLen, h.tokenType
@@ -361,6 +375,7 @@ package libinjection
 //@   ensures  result && wfH(h) && h.isClose == old(h.isClose) && h.tokenType == html5TypeAttrValue
 //@   ensures  [C17] @stream streamOK(h, old(h.pos)) && potQ(h) >= old(h.pos) + 1
 //@   ensures  [C15] @safe h.state == h.stateEOF || h.state == h.stateAfterAttributeValueQuotedState
+//@   cost     <= cpos(h) - old(h.pos) + 5
 
 //@ func (*h5State).init
 //@   requires h.pos == 0 && h.tokenLen == 0 && !h.isClose
@@ -370,6 +385,7 @@ package libinjection
 //@   ensures  [C13] @start h.state == (flags == html5FlagsDataState ? h.stateData : flags == html5FlagsValueNoQuote ? h.stateBeforeAttributeName :
 //@                 flags == html5FlagsValueSingleQuote ? h.stateAttributeValueSingleQuote :
 //@                 flags == html5FlagsValueDoubleQuote ? h.stateAttributeValueDoubleQuote : h.stateAttributeValueBackQuote)
+//@   cost     <= 2
 
 //@ func (*h5State).next
 //@   requires wfH(h)
@@ -379,6 +395,7 @@ package libinjection
 //@   ensures  [C02 C17] @progress result ==> potQ(h) >= old(potQ(h)) + 1
 //@   ensures  [C17] @stream result ==> streamOK(h, old(lowB(h)))
 //@   ensures  [C15] @safe noLtEq(h) && (old(safeState(h)) || old(quoteState(h))) && result ==> safeState(h) && (safeTok(h) || (h.tokenType == html5TypeAttrValue && old(quoteState(h))))
+//@   cost     <= (old(h.state == h.stateEOF) ? 4 : 3 * (cpos(h) - old(h.pos)) + 120)
 
 // =====================================================================================
 // XSS classifier
@@ -386,8 +403,10 @@ package libinjection
 
 //@ func isBlackTag
 //@   modifies nothing
-//@   loop 1 invariant 0 <= i
+//@   loop 1 invariant 0 <= i && i <= len(blackTags)
 //@   loop 1 decreases len(blackTags) - i
+//@   cost     <= 4 * len(s) + 64 * len(blackTags) + 40
+//@   loop 1 invariant [C09] $cost <= 4 * len(s) + 64 * i + 8
 
 //@ func isBlackAttr
 //@   modifies nothing
@@ -396,6 +415,9 @@ package libinjection
 //@   loop 1 decreases len(blackEvents) - rangeindex
 //@   loop 2 invariant -1 <= rangeindex && rangeindex < len(blacks)
 //@   loop 2 decreases len(blacks) - rangeindex
+//@   cost     <= 4 * len(s) + 64 * len(blackEvents) + 64 * len(blacks) + 60
+//@   loop 1 invariant [C09] $cost <= 4 * len(s) + 64 * (rangeindex + 1) + 30
+//@   loop 2 invariant [C09] $cost <= 4 * len(s) + 64 * len(blackEvents) + 64 * (rangeindex + 1) + 40
 
 // ---- character reference decoder (C19 oracle: value and consumed length of the reference at s[0:])
 //@ spec hexDigit(c int) int = (c >= '0' && c <= '9') ? c - '0' : ((c >= 'a' && c <= 'f') ? c - 'a' + 10 : ((c >= 'A' && c <= 'F') ? c - 'A' + 10 : 256))
@@ -449,6 +471,8 @@ package libinjection
 //@   modifies nothing
 //@   loop 1 invariant -1 <= rangeindex && rangeindex < 4
 //@   loop 1 decreases 4 - rangeindex
+//@   cost     <= 40 * len(s) + 200
+//@   loop 1 invariant [C09] $cost <= len(s) + 4 + (rangeindex + 1) * (8 * len(s) + 30)
 
 //@ func isXSS
 //@   justify  freshState
@@ -459,12 +483,15 @@ package libinjection
 //@   loop 1 invariant wfH(h5) && aliases(h5.s, input)
 //@   loop 1 invariant [C15] noLtEq(h5) ==> (safeState(h5) || quoteState(h5)) && (quoteState(h5) ==> attr == attributeTypeNone)
 //@   loop 1 decreases [C02 C17] h5.len + 1 - potQ(h5)
+//@   cost     <= 100 * len(input) + 40000 * (len(input) + 2) + 50
+//@   loop 1 invariant [C09] $cost <= 100 * cpos(h5) + 40000 * potQ(h5) + 50
 
 //@ func IsXSS
 //@   modifies nothing
 //@   ensures  [C13] @or5 result == (XV(input, html5FlagsDataState) || XV(input, html5FlagsValueNoQuote) || XV(input, html5FlagsValueSingleQuote) ||
 //@                 XV(input, html5FlagsValueDoubleQuote) || XV(input, html5FlagsValueBackQuote))
 //@   ensures  [C15] @no_lt_eq (forall i in [0, len(input)): input[i] != '<' && input[i] != '=') ==> !result
+//@   cost     <= 5 * (100 * len(input) + 40000 * (len(input) + 2) + 50) + 10
 
 // =====================================================================================
 // SQLi tokenizer
@@ -559,12 +586,14 @@ package libinjection
 //@   loop 1 decreases i + 1
 
 //@ func strLenSpn
-//@   requires 0 <= length && length <= len(s)
+//@   requires 0 <= length && length <= len(s) && len(accept) <= 64
 //@   modifies nothing
 //@   ensures  [C01 C16] @span 0 <= result && result <= length && (forall k in [0, result): memberOf(s[k], accept)) && (result < length ==> !memberOf(s[result], accept))
 //@   loop 1 invariant 0 <= i && i <= length
 //@   loop 1 invariant [C01 C16] forall k in [0, i): memberOf(s[k], accept)
 //@   loop 1 decreases length - i
+//@   cost     <= 67 * (result + 1)
+//@   loop 1 invariant [C09] $cost <= 67 * i
 
 //@ func strLenCSpn
 //@   requires 0 <= length && length <= len(s) && len(accept) == 256
@@ -604,6 +633,7 @@ package libinjection
 //@   requires wfS(s) && s.pos < s.length && (s.input[s.pos] == '#' || (s.input[s.pos] == '-' && s.pos + 1 < s.length && s.input[s.pos+1] == '-'))
 //@   modifies s.current.category, s.current.pos, s.current.len, s.current.val
 //@   ensures  [C01 C16] @lex lexOK(s, result) && s.current.category == sqliTokenTypeComment && s.current.pos == old(s.pos)
+//@   cost     <= (result - old(s.pos)) + 8
 
 //@ spec dd2At(s *sqliState, k int) bool = k + 1 < s.length && s.input[k] == '$' && s.input[k+1] == '$'
 //@ func parseMoney
@@ -619,54 +649,64 @@ package libinjection
 //@   requires wfS(s) && s.pos < s.length
 //@   modifies s.current.category, s.current.pos, s.current.len, s.current.val
 //@   ensures  [C01 C16] @lex lexOK(s, result) && result == old(s.pos) + 1
+//@   cost     <= 4
 
 //@ func parseWhite
 //@   requires wfS(s) && s.pos < s.length && zeroT(s.current)
 //@   modifies nothing
 //@   ensures  result == s.pos + 1
+//@   cost     <= 1
 
 //@ func parseOperator1
 //@   requires wfS(s) && s.pos < s.length
 //@   modifies s.current.category, s.current.pos, s.current.len, s.current.val
 //@   ensures  [C01 C16] @lex lexOK(s, result) && result == old(s.pos) + 1 && s.current.category == sqliTokenTypeOperator
+//@   cost     <= 4
 
 //@ func parseByte
 //@   requires wfS(s) && s.pos < s.length && s.input[s.pos] in {'(', ')', ',', ';', '{', '}'}
 //@   modifies s.current.category, s.current.pos, s.current.len, s.current.val
 //@   ensures  [C01 C16] @lex lexOK(s, result) && result == old(s.pos) + 1
+//@   cost     <= 4
 
 //@ func parseHash
 //@   requires wfS(s) && s.pos < s.length && s.input[s.pos] == '#' && 0 <= s.statsCommentHash && s.statsCommentHash <= 2 * s.pos
 //@   modifies s.current.category, s.current.pos, s.current.len, s.current.val, s.statsCommentHash
 //@   ensures  [C01 C16] @lex lexOK(s, result)
 //@   ensures  [C01 C12] @stats s.statsCommentHash == old(s.statsCommentHash) + ((s.flags & sqliFlagSQLMysql) != 0 ? 2 : 1)
+//@   cost     <= (result - old(s.pos)) + 12
 
 //@ func parseDash
 //@   requires wfS(s) && s.pos < s.length && s.input[s.pos] == '-' && 0 <= s.statsCommentDDX && s.statsCommentDDX <= s.pos
 //@   modifies s.current.category, s.current.pos, s.current.len, s.current.val, s.statsCommentDDX
 //@   ensures  [C01 C16] @lex lexOK(s, result)
 //@   ensures  [C01 C12] @stats old(s.statsCommentDDX) <= s.statsCommentDDX && s.statsCommentDDX <= old(s.statsCommentDDX) + 1
+//@   cost     <= (result - old(s.pos)) + 12
 
 //@ func parseSlash
 //@   requires wfS(s) && s.pos < s.length
 //@   modifies s.current.category, s.current.pos, s.current.len, s.current.val
 //@   ensures  [C01 C16] @lex lexOK(s, result)
+//@   cost     <= 3 * (result - old(s.pos)) + 24
 
 //@ func parseBackSlash
 //@   requires wfS(s) && s.pos < s.length
 //@   modifies s.current.category, s.current.pos, s.current.len, s.current.val
 //@   ensures  [C01 C16] @lex lexOK(s, result)
+//@   cost     <= 4
 
 //@ func parseOperator2
 //@   requires wfS(s) && s.pos < s.length
 //@   modifies s.current.category, s.current.pos, s.current.len, s.current.val
 //@   ensures  [C01 C16] @lex lexOK(s, result)
+//@   cost     <= 40
 
 //@ func parseString
 //@   requires wfS(s) && s.pos < s.length && (s.input[s.pos] == '\'' || s.input[s.pos] == '"')
 //@   modifies s.current.category, s.current.pos, s.current.len, s.current.val, s.current.strOpen, s.current.strClose
 //@   ensures  [C01 C16] @lex lexOK(s, result) && s.current.category == sqliTokenTypeString
 //@   ensures  [C18] @core corePost(s.current, s.input, old(s.pos), 1, s.input[old(s.pos)], result)
+//@   cost     <= 7 * (result - old(s.pos)) + 20
 
 //@ func parseWord
 //@   requires wfS(s) && s.pos < s.length && wordAccept(s.input[s.pos]) != 1
@@ -684,6 +724,7 @@ package libinjection
 //@   ensures  [C01 C16] @lex wfS(s) && stepOK(s, old(s.pos), result) && s.current.category == sqliTokenTypeVariable
 //@   ensures  [C18] @core let q = old(s.pos) + ((old(s.pos) + 1 < s.length && s.input[old(s.pos)+1] == '@') ? 2 : 1) in
 //@                 (q < s.length && (s.input[q] == '`' || s.input[q] == '\'' || s.input[q] == '"')) ==> corePost(s.current, s.input, q, 1, s.input[q], result)
+//@   cost     <= 7 * (result - old(s.pos)) + 180
 
 //@ func parseNumber
 //@   requires wfS(s) && s.pos < s.length && ((s.input[s.pos] >= '0' && s.input[s.pos] <= '9') || s.input[s.pos] == '.')
@@ -695,12 +736,17 @@ package libinjection
 //@   loop 2 decreases s.length - pos
 //@   loop 3 invariant s.pos < pos && pos <= s.length && start == s.pos
 //@   loop 3 decreases s.length - pos
+//@   cost     <= 70 * (result - old(s.pos)) + 120
+//@   loop 1 invariant [C09] $cost <= 2 * (pos - s.pos) + 10
+//@   loop 2 invariant [C09] $cost <= 2 * (pos - s.pos) + 12
+//@   loop 3 invariant [C09] $cost <= 2 * (pos - s.pos) + 14
 
 //@ func parseTick
 //@   requires wfS(s) && s.pos < s.length
 //@   modifies s.current.category, s.current.pos, s.current.len, s.current.val, s.current.strOpen, s.current.strClose
 //@   ensures  [C01 C16] @lex lexOK(s, result)
 //@   ensures  [C18] @core corePost(s.current, s.input, old(s.pos), 1, '`', result)
+//@   cost     <= 7 * (result - old(s.pos)) + 170
 
 //@ func parseUString
 //@   requires wfS(s) && s.pos < s.length && wordAccept(s.input[s.pos]) != 1
@@ -711,6 +757,7 @@ package libinjection
 //@                 s.current.len == min(coreEnd(s.input, old(s.pos) + 2, 1, '\'') - (old(s.pos) + 3), 31) &&
 //@                 s.current.strClose == (coreEnd(s.input, old(s.pos) + 2, 1, '\'') < s.length ? 'u' : 0) &&
 //@                 result == (coreEnd(s.input, old(s.pos) + 2, 1, '\'') < s.length ? coreEnd(s.input, old(s.pos) + 2, 1, '\'') + 1 : s.length)
+//@   cost     <= 7 * (result - old(s.pos)) + 5020
 
 //@ spec qClose(c int) int = c == '(' ? ')' : (c == '[' ? ']' : (c == '{' ? '}' : (c == '<' ? '>' : c)))
 //@ spec qEndAt(s *sqliState, k int, c int) bool = k + 1 < s.length && s.input[k] == c && s.input[k+1] == '\''
@@ -726,17 +773,20 @@ package libinjection
 //@                       s.current.len == min(result - 2 - (q + 3), 31)) &&
 //@                 (s.current.strClose == 0 ==> result == s.length && (forall k in [q + 3, s.length): !qEndAt(s, k, qClose(s.input[q+2]))) &&
 //@                       s.current.len == min(s.length - (q + 3), 31))
+//@   cost     <= 7 * (result - old(s.pos)) + 5020
 
 //@ func parseQString
 //@   requires wfS(s) && s.pos < s.length && wordAccept(s.input[s.pos]) != 1
 //@   modifies s.current.*
 //@   ensures  [C01 C16] @lex lexOK(s, result)
+//@   cost     <= 7 * (result - old(s.pos)) + 5024
 
 //@ func parseNqString
 //@   requires wfS(s) && s.pos < s.length && wordAccept(s.input[s.pos]) != 1
 //@   modifies s.current.*
 //@   ensures  [C01 C16] @lex lexOK(s, result)
 //@   ensures  [C18] @core old(s.pos) + 2 < s.length && s.input[old(s.pos)+1] == '\'' ==> corePost(s.current, s.input, old(s.pos), 2, '\'', result) && s.current.category == sqliTokenTypeString
+//@   cost     <= 7 * (result - old(s.pos)) + 5030
 
 //@ func parseXString
 //@   requires wfS(s) && s.pos < s.length && wordAccept(s.input[s.pos]) != 1
@@ -753,11 +803,13 @@ package libinjection
 //@   modifies s.current.*
 //@   ensures  [C01 C16] @lex lexOK(s, result)
 //@   ensures  [C18] @core old(s.pos) + 2 < s.length && s.input[old(s.pos)+1] == '\'' ==> corePost(s.current, s.input, old(s.pos), 2, '\'', result) && s.current.category == sqliTokenTypeString
+//@   cost     <= 7 * (result - old(s.pos)) + 5010
 
 //@ func parseBWord
 //@   requires wfS(s) && s.pos < s.length
 //@   modifies s.current.category, s.current.pos, s.current.len, s.current.val
 //@   ensures  [C01 C16] @lex lexOK(s, result)
+//@   cost     <= (result - old(s.pos)) + 8
 
 // ---- scanner state
 //@ spec freshState(s *sqliState, f int) bool = s.length == len(s.input) && s.flags == (f == 0 ? 9 : f) && s.pos == 0 && s.current == tv(s, 0) &&
